@@ -57,6 +57,7 @@ type cVar struct {
 	RH    bool   `json:"rh"`   // a custom ReturnHandler is mapped in the injector: it replaces the default table
 	Der   bool   `json:"der"`  // "C" installs a derived request context first and cancels that one
 	WK    int    `json:"wk"`   // how "W" touches the response: 0 always WriteHeader(200+h); else per handler WriteHeader / Write(bytes) / Write(nil) / Flush() / io.Copy
+	Upg   bool   `json:"upg"`  // the request asks for a protocol upgrade (Connection: Upgrade), as a WebSocket handshake does
 	Form  int    `json:"form"` // > 0: handlers whose program needs no Context are declared without one (net/http forms, func() T)
 	DL    bool   `json:"dl"`   // ... and that derived context ends by an expired deadline (the timeout-middleware case) rather than by cancel()
 }
@@ -408,6 +409,19 @@ func (x *chainExec) handler(h int) flamego.Handler {
 			}
 			return &s
 		}
+	case "ptr_err":
+		// the declared result type is the concrete pointer type (its Error method has a pointer receiver)
+		// (always a non-nil pointer: whether a NIL pointer of such a type is "a nil result" or "a non-nil error" is a question the
+		// property leaves open - Go itself answers "non-nil error" - so that case is not part of the checked universe)
+		return func(c flamego.Context) *myErr {
+			x.run(h, c)
+			return &myErr{decBytes(r.Err)}
+		}
+	case "int_ptr_err":
+		return func(c flamego.Context) (int, *myErr) {
+			x.run(h, c)
+			return r.Code, &myErr{decBytes(r.Err)}
+		}
 	case "ptr_bytes":
 		return func(c flamego.Context) *[]byte {
 			if !x.run(h, c) || s == "" {
@@ -555,6 +569,7 @@ func chainVarFor(c *chainCase, idx int) cVar {
 	v.DL = v.Der && rng.Intn(2) == 0
 	v.WK = rng.Intn(6)
 	v.Form = rng.Intn(2)
+	v.Upg = rng.Intn(5) == 0
 	v.RH = rng.Intn(5) == 0
 	v.Meth = []string{"GET", "GET", "HEAD", "POST"}[rng.Intn(4)]
 	v.HS = rng.Intn(3) == 0
@@ -620,12 +635,19 @@ func chainReplay(raw json.RawMessage, idx int, tr *traceWriter) {
 		// a handler wrapper (applied to route / not-found handlers that are not fast invokers): the identity here
 		f.HandlerWrapper(func(h flamego.Handler) flamego.Handler { return h })
 	}
+	// the middleware is handed over in a slice of the caller's own (with spare capacity); afterwards the caller scribbles
+	// over that slice - what the application runs is what it was given at the time of the call
+	mwArg := append(make([]flamego.Handler, 0, v.Mw+3), hs[:v.Mw]...)
 	if v.HS {
 		f.Use(func() { panic("replaced by Handlers()") }) // must be gone after Handlers()
-		f.Handlers(hs[:v.Mw]...)
+		f.Handlers(mwArg...)
 	} else {
-		f.Use(hs[:v.Mw]...)
+		f.Use(mwArg...)
 	}
+	for i := range mwArg {
+		mwArg[i] = func(c flamego.Context) { x.ev(map[string]interface{}{"e": "enter", "h": 98}) }
+	}
+	_ = append(mwArg, func(c flamego.Context) { x.ev(map[string]interface{}{"e": "enter", "h": 97}) })
 	if c.Progs[n].Kind != "nil" {
 		f.Action(x.handler(n))
 	}
@@ -688,6 +710,10 @@ func chainReplay(raw json.RawMessage, idx int, tr *traceWriter) {
 			path = "/nowhere"
 		}
 		req := (&http.Request{Method: meth, URL: &url.URL{Path: path}, Header: http.Header{}, Proto: "HTTP/1.1", ProtoMajor: 1, ProtoMinor: 1, Host: "x"}).WithContext(ctx)
+		if v.Upg {
+			req.Header.Set("Connection", "Upgrade")
+			req.Header.Set("Upgrade", "websocket")
+		}
 		done := make(chan struct{})
 		go func() {
 			defer close(done)
@@ -725,7 +751,7 @@ var chainRetPool = []cRet{
 	{Shape: "string_error", S: "s"}, {Shape: "string_error", S: "s", Err: "e"}, {Shape: "string_error"},
 	{Shape: "bytes_error", S: "b"}, {Shape: "bytes_error", Err: "e2"},
 	{Shape: "ptr_bytes", S: "pb"}, {Shape: "ptr_bytes"}, {Shape: "ptr_string"}, {Shape: "any_string", S: "as"}, {Shape: "any_bytes", S: "ab"}, {Shape: "any_string"},
-	{Shape: "int_ptr_bytes", Code: 202, S: "ipb"},
+	{Shape: "int_ptr_bytes", Code: 202, S: "ipb"}, {Shape: "ptr_err", Err: "pe"}, {Shape: "int_ptr_err", Code: 409, Err: "ipe"},
 	{Shape: "error", Err: "<zero-struct>"}, {Shape: "int_error", Code: 503, Err: "<zero-int>"}, {Shape: "string_error", S: "s", Err: "<typed-nil>"},
 	{Shape: "bytes_error", Err: "<zero-struct>"}, {Shape: "error", Err: "<typed-nil>"}, {Shape: "string_error", Err: "<zero-int>"},
 }
